@@ -2,17 +2,10 @@
 
 package preprocessor
 
-import (
-	"sync"
-
-	"github.com/internetarchive/Zeno/pkg/models"
-)
+import "sync"
 
 // VerifReset lets a harness start the stage again in the same process after Stop() (overlay-only, not in /repo).
 func VerifReset() {
 	once = sync.Once{}
 	globalPreprocessor = nil
 }
-
-// VerifPreprocess exposes preprocess() to harness packages.
-func VerifPreprocess(workerID string, seed *models.Item) { preprocess(workerID, seed) }
